@@ -30,6 +30,20 @@ pub fn main() -> i32 {
             let case: crate::props::c10::Case = serde_json::from_value(v["case"].clone()).unwrap();
             println!("{}", crate::props::c10::rewritten(&case));
         }
+        "timecompile" => {
+            for _ in 0..4 {
+                let t = std::time::Instant::now();
+                let r = crate::ergx::compile(&src, "3.11", 1);
+                let t1 = t.elapsed();
+                match r {
+                    Ok(c) => {
+                        let rr = crate::ergx::run_pyc(&c.pyc, "3.11", 20.0);
+                        println!("compile {:?} total {:?} -> {:?} {:?}", t1, t.elapsed(), rr.stdout_str(), rr.exc);
+                    }
+                    Err(d) => println!("compile {:?} errors {:?}", t1, d),
+                }
+            }
+        }
         "parse1" => match SimpleParser::parse(src) {
             Ok(art) => println!("{}", art.ast),
             Err(iart) => println!("ERR {:?}", iart.errors),
